@@ -2,6 +2,7 @@
 (* Trace judge for C05.  Input: ndjson (TRACE_FILE); every line is self-contained.           *)
 (*  hdr : [t, i, op, target, pre: <<[n, v]>>, c: call (see Response!ApplyMut), exc,           *)
 (*         post: <<[n, v, s]>>]     one mutator call on a real Headers object                 *)
+(*  rfin: like fin, recorded from the repository's own tests (verdict clauses only, no drift)  *)
 (*  fin : [t, i, op, inp: (see Response!Finalize; plus envstd, mhdrs), out: [exc, status,     *)
 (*         headers: <<[n, v, s]>>, body, allbytes, cb, ic, raw]]                              *)
 (*         one real Response finalised with get_wsgi_response, iterated `plan` chunks, closed *)
@@ -67,6 +68,7 @@ ExcDrift(ln) == IF ln.out.exc = "" /\ ~IsPrefixOf(DecOf(ln.code), ln.out.status)
 
 Verdict(ln) == CASE ln.op = "hdr" -> HdrClause(ln)
                  [] ln.op = "fin" -> FinClause(ln.inp, ln.out, Native(ln.out.headers))
+                 [] ln.op = "rfin" -> FinClause(ln.inp, ln.out, Native(ln.out.headers))   \* recorded from the repository's tests
                  [] ln.op = "shape" -> ShapeClause(ln.method, ln.code, ln.ncb, ln.out, ln.its, Native(ln.out.headers))
                  [] ln.op = "exc" -> ExcClause(ln)
                  [] OTHER -> "ok"
